@@ -215,7 +215,7 @@ def check_to_string(f, fn, rep, analyze_fn):
         # the Some payload must flow into the returned String
         ok2 = False
         for c in calls:
-            if c.callee_norm in ("string::ToString::to_string", "borrow::ToOwned::to_owned", "convert::From::from",
+            if c.declared_norm in ("string::ToString::to_string", "borrow::ToOwned::to_owned", "convert::From::from",
                                  "convert::Into::into", "string::String::from_str") and hit:
                 a0 = c.args[0]
                 if a0.mentions(hit[0].result):
@@ -225,7 +225,7 @@ def check_to_string(f, fn, rep, analyze_fn):
     # numeric fallback: a fmt argument constructed from a reference to the parameter
     ok3 = False
     for c in calls:
-        if "fmt::rt::Argument" in c.callee_norm and c.args and c.args[0].is_ref_to_param(1):
+        if "fmt::rt::Argument" in c.declared_norm and c.args and c.args[0].is_ref_to_param(1):
             ok3 = True
     rep.require(ok3, "to-string", fn["qual"] + ":fallback", w, "format!(.. {param} ..)",
                 "%s: the fallback text is not formatted from the numeric parameter" % fn["qual"])
